@@ -620,11 +620,23 @@ class Extractor:
                     raise LostAnchor(f"specfrom: no contract registered for {key}")
                 reg = self.spec_registry[key]
                 d = dict(d)
-                d["spec"] = list(reg["spec"])
-                d["tags"] = list(reg["tags"])
+                own = [l for l in d["spec"] if not l.strip().startswith("// @default")]
+                # the shared (trait-level) contract, optionally followed by implementation-specific extra `ensures` clauses
+                d["spec"] = list(reg["spec"]) + own
+                d["tags"] = sorted(set(reg["tags"]) | set(d["tags"]))
                 if reg.get("ret") and not d.get("ret"):
                     d["ret"] = reg["ret"]
             else:
+                if not d["tags"] and not d["spec"]:
+                    # a trait-impl method without its own contract is checked against the trait's contract: it inherits its tags
+                    m = re.search(r"impl\b.*?\b(\w+)(?:<[^>]*>)? for ", rs.norm(d["container"]))
+                    if m:
+                        for (ck, nm), reg in self.spec_registry.items():
+                            if nm == d["name"] and re.match(r"trait " + re.escape(m.group(1)) + r"\b", ck) and reg["tags"]:
+                                d = dict(d)
+                                d["tags"] = list(reg["tags"])
+                                d["inherited_tags"] = True
+                                break
                 self.spec_registry[(rs.norm(d["container"]), d["name"])] = dict(spec=list(d["spec"]), tags=list(d["tags"]), ret=d.get("ret"))
         cands = rs.find_item(src, kind, d["container"], d["name"], scanned)
         if not cands:
